@@ -592,9 +592,18 @@ func (p c20) Nontrivial(c *Case, outs []*Out) bool {
 // diffClass classifies how two texts of one declaration differ: only in
 // pointer placement, or by naming a type that the file it comes from never
 // declares (a declaration that was still being built when it was referenced).
+var aliasDecl = regexp.MustCompile(`(?m)^type \w+ = [\w.]+$`)
+
 func diffClass(a, b string, fa, fb *GoFile) string {
 	if strings.ReplaceAll(a, "*", "") == strings.ReplaceAll(b, "*", "") {
 		return ":pointer-placement"
+	}
+	if aliasDecl.MatchString(a) != aliasDecl.MatchString(b) && (strings.Contains(a, "struct {") || strings.Contains(b, "struct {")) {
+		// an alias of an existing copy in one history, a fresh struct copy in the other
+		if crossPkgComboWorld {
+			return ":alias-vs-copy:crosspackage-combinator-ref"
+		}
+		return ":alias-vs-copy"
 	}
 	if typeIdent.ReplaceAllString(a, "T") == typeIdent.ReplaceAllString(b, "T") {
 		// the two texts differ only in which (generated) type names they mention
@@ -745,4 +754,119 @@ func clash3World(t *rapid.T) *World {
 	w.Opts = Options{Package: "example.com/m/main", Output: rapid.SampledFrom([]string{"", "gen.go", "out/gen.go"}).Draw(t, "c3out"),
 		Extra: rapid.Bool().Draw(t, "c3e"), OnlyModels: rapid.IntRange(0, 3).Draw(t, "c3om") == 0, MinSized: rapid.Bool().Draw(t, "c3ms")}
 	return w
+}
+
+// ---- fixed battery worlds (shard 0, before the seeded search) -----------------------------
+
+// c20BatteryWorlds: small hand-built worlds for the link shapes that random worlds hit
+// only now and then: (1) two referrers in two packages share one declaration of a third
+// package; (2) two ids share one file+package and a third file refers into the second;
+// (3) two ids in one output with --schema-root-type each; (4) same-basename packages with
+// a definition called Shared in each; plus the clash3 world. Every ordering of every
+// non-empty subset of the files is run.
+func c20BatteryWorlds() []*World {
+	str := Obj{{"type", "string"}}
+	obj := func(props Obj, defs Obj, id string) Obj {
+		d := Obj{{"$id", id}, {"type", "object"}, {"properties", props}}
+		if len(defs) > 0 {
+			d = append(d, KV{"$defs", defs})
+		}
+		return d
+	}
+	mkFile := func(tag string, pkg int, doc func(f *SFile) Obj, defs []string, refs []RefUse) *SFile {
+		f := &SFile{Tag: tag, Base: tag + "f.json", ID: "https://example.com/" + tag, Pkg: pkg, RootObj: true, Defs: defs, Refs: refs}
+		f.Doc = doc(f)
+		return f
+	}
+	def := func(tag, name string, extra ...KV) KV {
+		return KV{name, Obj{{"type", "object"}, {"properties", append(Obj{{"mk_" + tag + "_" + name, str}, {tag + "v", Obj{{"type", "integer"}}}}, extra...)}}}
+	}
+	var ws []*World
+	// (1) hub: t0 (main) and t1 (pk1) both refer to t2 (pk2) #T2Da and to its root
+	{
+		t2 := mkFile("t2", 2, func(f *SFile) Obj { return obj(Obj{{"mk_t2", str}}, Obj{def("t2", "T2Da")}, f.ID) }, []string{"T2Da"}, nil)
+		t0 := mkFile("t0", 0, func(f *SFile) Obj {
+			return obj(Obj{{"mk_t0", str}, {"t0r1", Obj{{"$ref", "t2f.json#/$defs/T2Da"}}}, {"t0r2", Obj{{"$ref", "t2f.json"}}}}, nil, f.ID)
+		}, nil, []RefUse{{FromTag: "t0", Prop: "t0r1", Ref: "t2f.json#/$defs/T2Da", ToTag: "t2", ToDef: "T2Da"}})
+		t1 := mkFile("t1", 1, func(f *SFile) Obj {
+			return obj(Obj{{"mk_t1", str}, {"t1r1", Obj{{"$ref", "t2f.json#/$defs/T2Da"}}}, {"t1r2", Obj{{"type", "array"}, {"items", Obj{{"$ref", "t2f.json"}}}}}}, nil, f.ID)
+		}, nil, []RefUse{{FromTag: "t1", Prop: "t1r1", Ref: "t2f.json#/$defs/T2Da", ToTag: "t2", ToDef: "T2Da"}})
+		w := &World{Root: "/w", Cwd: "/w", Files: []*SFile{t0, t1, t2}, Opts: Options{Package: "example.com/m/main", Output: "out/main/gen.go", Extra: true,
+			SchemaPkg: []Pair{{t1.ID, "example.com/m/pk1"}, {t2.ID, "example.com/m/pk2"}}, SchemaOut: []Pair{{t1.ID, "out/pk1/gen.go"}, {t2.ID, "out/pk2/gen.go"}}}}
+		ws = append(ws, w)
+	}
+	// (2) t0 and t1 share file+package (pk1); t2 (main) refers into t1
+	{
+		t0 := mkFile("t0", 1, func(f *SFile) Obj { return obj(Obj{{"mk_t0", str}}, Obj{def("t0", "T0Da")}, f.ID) }, []string{"T0Da"}, nil)
+		t1 := mkFile("t1", 1, func(f *SFile) Obj { return obj(Obj{{"mk_t1", str}}, Obj{def("t1", "T1Da")}, f.ID) }, []string{"T1Da"}, nil)
+		t2 := mkFile("t2", 0, func(f *SFile) Obj {
+			return obj(Obj{{"mk_t2", str}, {"t2r1", Obj{{"$ref", "t1f.json#/$defs/T1Da"}}}, {"t2r2", Obj{{"$ref", "t1f.json"}}}}, nil, f.ID)
+		}, nil, []RefUse{{FromTag: "t2", Prop: "t2r1", Ref: "t1f.json#/$defs/T1Da", ToTag: "t1", ToDef: "T1Da"}})
+		w := &World{Root: "/w", Cwd: "/w", Files: []*SFile{t0, t1, t2}, Opts: Options{Package: "example.com/m/main", Output: "out/main/gen.go",
+			SchemaPkg: []Pair{{t0.ID, "example.com/m/pk1"}, {t1.ID, "example.com/m/pk1"}}, SchemaOut: []Pair{{t0.ID, "out/pk1/gen.go"}, {t1.ID, "out/pk1/gen.go"}}}}
+		ws = append(ws, w)
+	}
+	// (3) two ids in the default output, each with its own --schema-root-type (and output)
+	{
+		t0 := mkFile("t0", 0, func(f *SFile) Obj { return obj(Obj{{"mk_t0", str}, {"t0r1", Obj{{"$ref", "t1f.json"}}}}, Obj{def("t0", "T0Da")}, f.ID) }, []string{"T0Da"},
+			[]RefUse{{FromTag: "t0", Prop: "t0r1", Ref: "t1f.json", ToTag: "t1"}})
+		t1 := mkFile("t1", 0, func(f *SFile) Obj { return obj(Obj{{"mk_t1", str}}, Obj{def("t1", "T1Da")}, f.ID) }, []string{"T1Da"}, nil)
+		t2 := mkFile("t2", 0, func(f *SFile) Obj { return obj(Obj{{"mk_t2", str}}, nil, f.ID) }, nil, nil)
+		w := &World{Root: "/w", Cwd: "/w", Files: []*SFile{t0, t1, t2}, Opts: Options{Package: "example.com/m/main", Output: "gen.go",
+			SchemaRoot: []Pair{{t0.ID, "AlphaConfig"}, {t1.ID, "BetaConfig"}}, SchemaOut: []Pair{{t0.ID, "gen.go"}, {t1.ID, "gen.go"}}}}
+		ws = append(ws, w)
+	}
+	// (4) same-basename packages, a definition called Shared (with an anyOf over helpers) in each
+	{
+		mk := func(tag string, pkg int) *SFile {
+			return mkFile(tag, pkg, func(f *SFile) Obj {
+				cb := Obj{{"type", "object"}, {"properties", Obj{{"cb_" + tag + "_sa", str}}}}
+				return obj(Obj{{"mk_" + tag, str}, {tag + "r1", Obj{{"$ref", "#/$defs/Shared"}}}},
+					Obj{def(tag, "SharedA"), def(tag, "SharedB"),
+						def(tag, "Shared", KV{"sharedany", Obj{{"anyOf", []any{Obj{{"$ref", "#/$defs/SharedA"}}, Obj{{"$ref", "#/$defs/SharedB"}}, cb}}}})}, f.ID)
+			}, []string{"SharedA", "SharedB", "Shared"}, nil)
+		}
+		t0, t1 := mk("t0", 1), mk("t1", 2)
+		w := &World{Root: "/w", Cwd: "/w", Files: []*SFile{t0, t1}, Opts: Options{Package: "example.com/m/main/v1", Output: "out/main/gen.go", Caps: []string{"ID", "URL"},
+			SchemaPkg: []Pair{{t0.ID, "example.com/m/pk1/v1"}, {t1.ID, "example.com/m/pk2/v1"}}, SchemaOut: []Pair{{t0.ID, "out/pk1/gen.go"}, {t1.ID, "out/pk2/gen.go"}}}}
+		ws = append(ws, w)
+	}
+	return ws
+}
+
+func (p c20) Batteries(env *Env) ([]*Case, [][]*Out) {
+	var cs []*Case
+	var os [][]*Out
+	for _, w := range c20BatteryWorlds() {
+		meta := buildC20Meta(w)
+		c := &Case{Prop: "C20"}
+		var outs []*Out
+		run := func(idx []int) {
+			var args, tags, sp []string
+			for _, i := range idx {
+				args = append(args, w.ArgFor(w.Files[i], "rel"))
+				tags = append(tags, w.Files[i].Tag)
+				sp = append(sp, "rel")
+			}
+			c.Runs = append(c.Runs, Run{Label: "battery history", Spec: w.Spec("", nil, args)})
+			meta.RunTags = append(meta.RunTags, tags)
+			meta.ArgSpell = append(meta.ArgSpell, sp)
+			meta.RunArgs = append(meta.RunArgs, args)
+			outs = append(outs, env.Exec(&c.Runs[len(c.Runs)-1].Spec))
+		}
+		n := len(w.Files)
+		for i := 0; i < n; i++ {
+			run([]int{i})
+		}
+		for _, h := range allHistories(n) {
+			if len(h) > 1 {
+				run(h)
+			}
+		}
+		c.Meta, _ = json.Marshal(meta)
+		cs = append(cs, c)
+		os = append(os, outs)
+	}
+	env.Stats.Counters["battery_worlds"] += len(cs)
+	return cs, os
 }
